@@ -26,8 +26,8 @@ class C18(Prop):
 
     def plan(self, tier):
         if tier == "quick":
-            return {"units": 8000, "budget_s": 75, "block": 100}
-        return {"units": 300000, "budget_s": 1500, "block": 200}
+            return {"units": 100000, "budget_s": 90, "block": 500}
+        return {"units": 3000000, "budget_s": 1500, "block": 1000}
 
     def gen(self, rng, idx, tier):
         nc = rng.randint(1, 4)
